@@ -190,6 +190,26 @@ func c13Run(c c13Case) (opts []ndp.Option, err error, panicked any) {
 			return ra3.Options, fmt.Errorf("verif: build onto an RA that already carries %d options differs (%v): %v, alone: %v", len(pre), err3, c13Describe(ra3.Options), c13Describe(ra.Options)), nil
 		}
 	}
+	if err == nil {
+		// The same plugin value, rebuilt after the kernel changed nothing but the flags of
+		// the addresses (same addresses, same order): (i) duplicate address detection done
+		// and nothing temporary any more, (ii) every address tentative. The options follow
+		// the flags as they are NOW.
+		for vi, flags := range []string{"", "N"} {
+			c2 := c
+			c2.Addrs = append([]vfIP(nil), c.Addrs...)
+			for i := range c2.Addrs {
+				c2.Addrs[i].Flags = flags
+			}
+			in = vfIPs(c2.Addrs)
+			ra4 := &ndp.RouterAdvertisement{}
+			err4 := p.Apply(ra4)
+			want := c13Expected(c2)
+			if err4 != nil || !(reflect.DeepEqual(ra4.Options, want) || len(ra4.Options) == 0 && len(want) == 0) {
+				return ra4.Options, fmt.Errorf("verif: rebuild after only the address flags changed (variant %d, all flags now %q) differs (%v): %v, want %v", vi, flags, err4, c13Describe(ra4.Options), c13Describe(want)), nil
+			}
+		}
+	}
 	return ra.Options, err, nil
 }
 
